@@ -225,7 +225,7 @@ func (p *Program) assumeGlobalFacts(e *Exec, fn *ssa.Function, h0 *Heap) {
 				used = true
 				continue
 			}
-			if so != SInt {
+			if so != SRef {
 				continue
 			}
 			vc.assume(not(eq(val, "0")))
